@@ -144,6 +144,8 @@ def run_check(prop: str, tier: str, seed: int, only_spec: dict | None = None) ->
         if r["status"] != "ok":
             broken.append(r)
             continue
+        if r.get("crashed"):
+            broken.append({"shard": r["shard"], "status": "monitor-crash", "rc": 0, "tail": r["crashed"]})
         evaluations += r["evaluations"]
         sigs.update(r["sigs"])
         counters.update(r["counters"])
